@@ -57,28 +57,34 @@ theorem sink_of_not_hasTx (c : W) (h : c.hasTx = false) : c.sink = none := by
     subst h
     rfl
 
-/-- The invariant: no bad publish so far, everything durable has been published
-    (in the same order), no nested transaction, the queue of the wrapper that
-    opened an open transaction holds exactly that transaction's pending writes. -/
-structure Inv (s : St) : Prop where
+/-- The invariant, with a set `ex` of exempted transactions (those currently under
+    a nested first-write path, handled by `Ledger/Proofs/WrapNest.lean`): no bad
+    publish so far, everything durable has been published (in the same order),
+    and for every open, non-exempted transaction: it is not nested and the queue of
+    the wrapper that opened it holds exactly its pending writes. -/
+structure InvE (ex : Nat → Bool) (s : St) : Prop where
   bad : (specOf s.trace).bad = false
   pub : (specOf s.trace).pub = (specOf s.trace).dur
-  par : ∀ t, (specOf s.trace).par t = 0
-  queue : ∀ t, s.opn t = true → s.queue (.tx t) = (specOf s.trace).pend t
+  par : ∀ t, s.opn t = true → ex t = false → (specOf s.trace).par t = 0
+  queue : ∀ t, s.opn t = true → ex t = false → s.queue (.tx t) = (specOf s.trace).pend t
   fresh : ∀ t, s.nT < t → s.opn t = false ∧ s.queue (.tx t) = []
   lockF : s.lockTx false = false
 
-theorem Inv.of_eq {s s' : St} (h : Inv s) (ht : s'.trace = s.trace) (ho : s'.opn = s.opn)
-    (hq : s'.queue = s.queue) (hn : s'.nT = s.nT) (hl : s'.lockTx = s.lockTx) : Inv s' := by
+/-- The invariant without exemptions. -/
+abbrev Inv (s : St) : Prop := InvE (fun _ => false) s
+
+theorem InvE.of_eq {ex : Nat → Bool} {s s' : St} (h : InvE ex s) (ht : s'.trace = s.trace) (ho : s'.opn = s.opn)
+    (hq : s'.queue = s.queue) (hn : s'.nT = s.nT) (hl : s'.lockTx = s.lockTx) : InvE ex s' := by
   constructor
   · rw [ht]; exact h.bad
   · rw [ht]; exact h.pub
-  · rw [ht]; exact h.par
+  · rw [ht, ho]; exact h.par
   · rw [ht, ho, hq]; exact h.queue
   · rw [hn, ho, hq]; exact h.fresh
   · rw [hl]; exact h.lockF
 
-theorem Inv.emit_inert {s : St} (h : Inv s) (it : Item) (hi : it.inert = true) : Inv (s.emit it) := by
+theorem InvE.emit_inert {ex : Nat → Bool} {s : St} (h : InvE ex s) (it : Item) (hi : it.inert = true) :
+    InvE ex (s.emit it) := by
   have hs : specOf (s.emit it).trace = specOf s.trace := by
     simp only [St.emit, specOf_snoc]; exact step_inert _ _ hi
   constructor
@@ -180,8 +186,12 @@ theorem updQ_same (q : WId → List Ev) (i : WId) (v : List Ev) : updQ q i v i =
 theorem updQ_other (q : WId → List Ev) (i j : WId) (v : List Ev) (h : j ≠ i) : updQ q i v j = q j := by
   simp [updQ, h]
 
-theorem wWrite_pres {s : St} {c : W} (h : Inv s) (hc : Good s.nT c) (k : Kind) (dry : Bool) (w : Nat) :
-    Inv (wWrite s c k dry w).2 ∧ Ext s (wWrite s c k dry w).2 := by
+theorem specOf_append (a b : List Item) : specOf (a ++ b) = Spec.run (specOf a) b := by
+  simp [specOf, Spec.run_append]
+
+theorem wWrite_pres {ex : Nat → Bool} {s : St} {c : W} (h : InvE ex s) (hc : Good s.nT c)
+    (k : Kind) (dry : Bool) (w : Nat) :
+    InvE ex (wWrite s c k dry w).2 ∧ Ext s (wWrite s c k dry w).2 := by
   cases hl : c.u.live s.opn with
   | false => rw [wWrite_done k dry w hl]; exact ⟨h.emit_inert _ (inert_write_done ..), Ext.emit _ _⟩
   | true =>
@@ -204,8 +214,8 @@ theorem wWrite_pres {s : St} {c : W} (h : Inv s) (hc : Good s.nT c) (k : Kind) (
           constructor
           · rw [hσ]; simp [Spec.step, h.bad, h.pub, List.count_append]
           · rw [hσ]; simp [Spec.step, h.pub]
-          · rw [hσ]; simpa [Spec.step] using h.par
-          · rw [hσ]; simpa [Spec.step, St.emit] using h.queue
+          · rw [hσ]; intro t' ho hx; simpa [Spec.step] using h.par t' ho hx
+          · rw [hσ]; intro t' ho hx; simpa [Spec.step, St.emit] using h.queue t' ho hx
           · simpa [St.emit] using h.fresh
           · exact h.lockF
         · -- inside transaction t: pending there, queued on the wrapper that opened t
@@ -221,9 +231,10 @@ theorem wWrite_pres {s : St} {c : W} (h : Inv s) (hc : Good s.nT c) (k : Kind) (
             rw [hσ]; simp [Spec.step, ht0, h.bad]
           · show (specOf (s.emit (.write t k false w .ok)).trace).pub = _
             rw [hσ]; simp [Spec.step, ht0, h.pub]
-          · show ∀ t', (specOf (s.emit (.write t k false w .ok)).trace).par t' = 0
-            rw [hσ]; simpa [Spec.step, ht0] using h.par
-          · intro t' ho
+          · intro t' ho hx
+            show (specOf (s.emit (.write t k false w .ok)).trace).par t' = 0
+            rw [hσ]; simpa [Spec.step, ht0] using h.par t' ho hx
+          · intro t' ho hx
             show updQ (s.emit _).queue (.tx t) _ (.tx t') = (specOf (s.emit (.write t k false w .ok)).trace).pend t'
             rw [hσ]
             simp only [Spec.step, ht0, if_false]
@@ -231,9 +242,9 @@ theorem wWrite_pres {s : St} {c : W} (h : Inv s) (hc : Good s.nT c) (k : Kind) (
             · subst htt
               rw [updQ_same, upd_same]
               simp only [St.emit]
-              rw [h.queue t' hopn]
+              rw [h.queue t' hopn hx]
             · rw [updQ_other _ _ _ _ (by intro he; cases he; exact htt rfl), upd_other _ _ _ _ htt]
-              exact h.queue t' ho
+              exact h.queue t' ho hx
           · intro t' ht'
             have ht'' : s.nT < t' := ht'
             have htt : t' ≠ t := by omega
@@ -243,50 +254,56 @@ theorem wWrite_pres {s : St} {c : W} (h : Inv s) (hc : Good s.nT c) (k : Kind) (
             exact (h.fresh t' ht').2
           · exact h.lockF
 
+theorem wBegin_fail {s : St} {c : W} (hl : c.u.live s.opn = true) (hf : s.faults.begin = true) :
+    wBegin s c = (.error .begin, s.emit (.begin 0 c.u.id .fail)) := by
+  simp [wBegin, hl, hf]
 
-theorem wBegin_fail {s : St} {c : W} (hu : c.u = .none) (hf : s.faults.begin = true) :
-    wBegin s c = (.error .begin, s.emit (.begin 0 0 .fail)) := by
-  simp [wBegin, hu, UH.live, UH.id, hf]
+theorem wBegin_done {s : St} {c : W} (hl : c.u.live s.opn = false) :
+    wBegin s c = (.error .txdone, s.emit (.begin 0 c.u.id .done)) := by
+  simp [wBegin, hl]
 
-theorem wBegin_ok {s : St} {c : W} (hu : c.u = .none) (hf : s.faults.begin = false) :
-    wBegin s c = (.ok (.node (.tx (s.nT + 1)) true (.tx (s.nT + 1) .none) c),
-      { s with nT := s.nT + 1, opn := upd s.opn (s.nT + 1) true }.emit (.begin (s.nT + 1) 0 .ok)) := by
-  simp [wBegin, hu, UH.live, UH.id, hf]
+theorem wBegin_ok {s : St} {c : W} (hl : c.u.live s.opn = true) (hf : s.faults.begin = false) :
+    wBegin s c = (.ok (.node (.tx (s.nT + 1)) true (.tx (s.nT + 1) c.u) c),
+      { s with nT := s.nT + 1, opn := upd s.opn (s.nT + 1) true }.emit (.begin (s.nT + 1) c.u.id .ok)) := by
+  simp [wBegin, hl, hf]
 
 /-- `BeginTX` on a wrapper outside any transaction. -/
-theorem wBegin_pres {s : St} {c : W} (h : Inv s) (hc : Good s.nT c) (hu : c.u = .none) :
-    Inv (wBegin s c).2 ∧ Ext s (wBegin s c).2 ∧
+theorem wBegin_pres {ex : Nat → Bool} {s : St} {c : W} (h : InvE ex s) (hc : Good s.nT c) (hu : c.u = .none) :
+    InvE ex (wBegin s c).2 ∧ Ext s (wBegin s c).2 ∧
     ∀ n, (wBegin s c).1 = .ok n →
+      n = .node (.tx (s.nT + 1)) true (.tx (s.nT + 1) .none) c ∧
+      (wBegin s c).2.nT = s.nT + 1 ∧ (wBegin s c).2.opn (s.nT + 1) = true ∧
       Good (wBegin s c).2.nT n ∧ n.lockCreated = false ∧ n.u ≠ .none := by
+  have hl : c.u.live s.opn = true := by rw [hu]; rfl
   cases hf : s.faults.begin with
   | true =>
-    rw [wBegin_fail hu hf]
+    rw [wBegin_fail hl hf]
     exact ⟨h.emit_inert _ rfl, Ext.emit _ _, fun n hn => by cases hn⟩
   | false =>
-    rw [wBegin_ok hu hf]
+    rw [wBegin_ok hl hf, hu]
     have hh : c.hasTx = false := by
       rcases hc with ⟨_, hh, _⟩ | ⟨t, hu', _⟩
       · exact hh
       · rw [hu] at hu'; cases hu'
     refine ⟨?_, ⟨Nat.le_succ _, rfl, rfl, id⟩, ?_⟩
     · have hσ : specOf ({ s with nT := s.nT + 1, opn := upd s.opn (s.nT + 1) true }.emit
-          (.begin (s.nT + 1) 0 .ok)).trace = (specOf s.trace).step (.begin (s.nT + 1) 0 .ok) := by
-        simp [St.emit, specOf_snoc]
+          (.begin (s.nT + 1) UH.none.id .ok)).trace = (specOf s.trace).step (.begin (s.nT + 1) 0 .ok) := by
+        simp [St.emit, specOf_snoc, UH.id]
       constructor
       · rw [hσ]; simpa [Spec.step] using h.bad
       · rw [hσ]; simpa [Spec.step] using h.pub
       · rw [hσ]
-        intro t
-        simp only [Spec.step]
+        intro t ho hx
+        simp only [Spec.step, St.emit] at ho ⊢
         by_cases ht : t = s.nT + 1
         · subst ht; rw [upd_same]
-        · rw [upd_other _ _ _ _ ht]; exact h.par t
+        · rw [upd_other _ _ _ _ ht] at ho ⊢; exact h.par t ho hx
       · rw [hσ]
-        intro t ho
+        intro t ho hx
         simp only [Spec.step, St.emit] at ho ⊢
         by_cases ht : t = s.nT + 1
         · subst ht; rw [upd_same]; exact (h.fresh _ (Nat.lt_succ_self _)).2
-        · rw [upd_other _ _ _ _ ht] at ho ⊢; exact h.queue t ho
+        · rw [upd_other _ _ _ _ ht] at ho ⊢; exact h.queue t ho hx
       · intro t ht
         simp only [St.emit] at ht ⊢
         have ht' : s.nT < t := by omega
@@ -296,7 +313,8 @@ theorem wBegin_pres {s : St} {c : W} (h : Inv s) (hc : Good s.nT c) (hu : c.u = 
       · exact h.lockF
     · intro n hn
       cases hn
-      refine ⟨Or.inr ⟨s.nT + 1, rfl, by omega, Nat.le_refl _, rfl, ?_, Or.inl rfl⟩, rfl, by simp [W.u]⟩
+      refine ⟨rfl, rfl, by simp [St.emit], Or.inr ⟨s.nT + 1, rfl, by omega, Nat.le_refl _, rfl, ?_, Or.inl rfl⟩,
+        rfl, by simp [W.u]⟩
       simp [W.sink, hh]
 
 theorem wLock_done {s : St} {c : W} (hl : c.u.live s.opn = false) :
@@ -312,11 +330,22 @@ theorem wLock_ok {s : St} {c : W} (hl : c.u.live s.opn = true) (hf : s.faults.lo
       { s with nK := s.nK + 1 }.emit (.lock c.u.id .ok)) := by
   simp [wLock, hl, hf]
 
+/-- `LockLedger` only appends an inert item (and bumps the lock counter), on any wrapper. -/
+theorem wLock_state (s : St) (c : W) :
+    ∃ it, it.inert = true ∧
+      ((wLock s c).2 = s.emit it ∨ (wLock s c).2 = { s with nK := s.nK + 1 }.emit it) := by
+  cases hl : c.u.live s.opn with
+  | false => rw [wLock_done hl]; exact ⟨_, rfl, Or.inl rfl⟩
+  | true =>
+    cases hf : s.faults.lock with
+    | true => rw [wLock_fail hl hf]; exact ⟨_, rfl, Or.inl rfl⟩
+    | false => rw [wLock_ok hl hf]; exact ⟨_, rfl, Or.inr rfl⟩
+
 /-- `LockLedger`: outside a transaction always fine; inside one only if the
     returned wrapper keeps `hasTx`. -/
-theorem wLock_pres {s : St} {c : W} (h : Inv s) (hc : Good s.nT c)
+theorem wLock_pres {ex : Nat → Bool} {s : St} {c : W} (h : InvE ex s) (hc : Good s.nT c)
     (hpre : c.u = .none ∨ s.lockTx true = true) :
-    Inv (wLock s c).2 ∧ Ext s (wLock s c).2 ∧
+    InvE ex (wLock s c).2 ∧ Ext s (wLock s c).2 ∧
     ∀ n, (wLock s c).1 = .ok n → Good (wLock s c).2.nT n := by
   cases hl : c.u.live s.opn with
   | false => rw [wLock_done hl]; exact ⟨h.emit_inert _ rfl, Ext.emit _ _, fun n hn => by cases hn⟩
@@ -326,7 +355,7 @@ theorem wLock_pres {s : St} {c : W} (h : Inv s) (hc : Good s.nT c)
     | false =>
       rw [wLock_ok hl hf]
       refine ⟨?_, ⟨Nat.le_refl _, rfl, rfl, id⟩, ?_⟩
-      · exact (Inv.of_eq h rfl rfl rfl rfl rfl : Inv { s with nK := s.nK + 1 }).emit_inert _ rfl
+      · exact (InvE.of_eq h rfl rfl rfl rfl rfl : InvE ex { s with nK := s.nK + 1 }).emit_inert _ rfl
       · intro n hn
         cases hn
         rcases hc with ⟨hu, hh, _⟩ | ⟨t, hu, ht1, htn, hh, hsink, _⟩
@@ -339,41 +368,48 @@ theorem wLock_pres {s : St} {c : W} (h : Inv s) (hc : Good s.nT c)
           show (if !(s.lockTx c.hasTx) then none else if c.hasTx then c.sink else some (WId.lk s.nK)) = _
           rw [hh, hlt, hsink]; rfl
 
-theorem uSql_pres {s : St} (h : Inv s) (c : W) (tag : Nat) :
-    Inv (uSql s c tag).2 ∧ Ext s (uSql s c tag).2 := by
+theorem uSql_state (s : St) (c : W) (tag : Nat) : ∃ it, it.inert = true ∧ (uSql s c tag).2 = s.emit it := by
   unfold uSql
   split
-  · exact ⟨h.emit_inert _ rfl, Ext.emit _ _⟩
-  · exact ⟨h.emit_inert _ rfl, Ext.emit _ _⟩
+  · exact ⟨_, rfl, rfl⟩
+  · exact ⟨_, rfl, rfl⟩
 
-theorem wRelease_pres {s : St} (h : Inv s) (c : W) :
-    Inv (wRelease s c) ∧ Ext s (wRelease s c) :=
+theorem uSql_pres {ex : Nat → Bool} {s : St} (h : InvE ex s) (c : W) (tag : Nat) :
+    InvE ex (uSql s c tag).2 ∧ Ext s (uSql s c tag).2 := by
+  obtain ⟨it, hi, he⟩ := uSql_state s c tag
+  rw [he]
+  exact ⟨h.emit_inert _ hi, Ext.emit _ _⟩
+
+theorem wRelease_pres {ex : Nat → Bool} {s : St} (h : InvE ex s) (c : W) :
+    InvE ex (wRelease s c) ∧ Ext s (wRelease s c) :=
   ⟨h.emit_inert _ rfl, Ext.emit _ _⟩
 
-
-
-theorem specOf_append (a b : List Item) : specOf (a ++ b) = Spec.run (specOf a) b := by
-  simp [specOf, Spec.run_append]
+/-- the scripted `Commit` failure for a handle -/
+def commitFails (s : St) (c : W) : Bool :=
+  s.faults.commit || (s.faults.commitTop && c.u.parentId == 0)
 
 theorem wCommit_done {s : St} {c : W} (h : c.u.id = 0 ∨ c.u.live s.opn = false) :
     wCommit s c = (.txdone, s.emit (.commit c.u.id .done)) := by
   rcases h with h | h <;> simp [wCommit, h]
 
 theorem wCommit_fail {s : St} {c : W} (h0 : c.u.id ≠ 0) (hl : c.u.live s.opn = true)
-    (hf : s.faults.commit = true) :
+    (hf : commitFails s c = true) :
     wCommit s c = (.commit, { s with opn := upd s.opn c.u.id false }.emit (.commit c.u.id .fail)) := by
+  unfold commitFails at hf
   simp [wCommit, h0, hl, hf]
 
 theorem wCommit_ok {s : St} {c : W} (h0 : c.u.id ≠ 0) (hl : c.u.live s.opn = true)
-    (hf : s.faults.commit = false) :
+    (hf : commitFails s c = false) :
     wCommit s c = (.ok, publishAll ({ s with opn := upd s.opn c.u.id false }.emit (.commit c.u.id .ok))
       (s.queue c.id)) := by
+  unfold commitFails at hf
   simp [wCommit, h0, hl, hf, St.emit]
 
-/-- `Commit`, not through a wrapper returned by `LockLedger` inside a transaction. -/
-theorem wCommit_pres {s : St} {c : W} (h : Inv s) (hc : Good s.nT c)
-    (hpre : c.u = .none ∨ c.lockCreated = false) :
-    Inv (wCommit s c).2 ∧ Ext s (wCommit s c).2 := by
+/-- `Commit` of a non-nested, non-exempted transaction, not through a wrapper
+    returned by `LockLedger` inside a transaction. -/
+theorem wCommit_pres {ex : Nat → Bool} {s : St} {c : W} (h : InvE ex s) (hc : Good s.nT c)
+    (hpre : c.u = .none ∨ c.lockCreated = false) (hex : ex c.u.id = false) :
+    InvE ex (wCommit s c).2 ∧ Ext s (wCommit s c).2 := by
   rcases hc with ⟨hu, _, _⟩ | ⟨t, hu, ht1, htn, _, _, hid⟩
   · rw [wCommit_done (Or.inl (by rw [hu]; rfl))]
     exact ⟨h.emit_inert _ rfl, Ext.emit _ _⟩
@@ -387,11 +423,12 @@ theorem wCommit_pres {s : St} {c : W} (h : Inv s) (hc : Good s.nT c)
           | node id hh u p => simp only [W.id] at hid; subst hid; simp [W.lockCreated] at hp
     have h0 : c.u.id ≠ 0 := by rw [hu]; simp [UH.id]; omega
     have hidu : c.u.id = t := by rw [hu]; rfl
+    rw [hidu] at hex
     cases hl : c.u.live s.opn with
     | false => rw [wCommit_done (Or.inr hl)]; exact ⟨h.emit_inert _ rfl, Ext.emit _ _⟩
     | true =>
       have hopn : s.opn t = true := by rw [hu, live_tx] at hl; exact hl
-      cases hf : s.faults.commit with
+      cases hf : commitFails s c with
       | true =>
         rw [wCommit_fail h0 hl hf, hidu]
         refine ⟨?_, ⟨Nat.le_refl _, rfl, rfl, id⟩⟩
@@ -400,13 +437,18 @@ theorem wCommit_pres {s : St} {c : W} (h : Inv s) (hc : Good s.nT c)
         constructor
         · rw [hσ]; simpa [Spec.step] using h.bad
         · rw [hσ]; simpa [Spec.step] using h.pub
-        · rw [hσ]; simpa [Spec.step] using h.par
         · rw [hσ]
-          intro t' ho
+          intro t' ho hx
           simp only [Spec.step, St.emit] at ho ⊢
           by_cases htt : t' = t
           · subst htt; rw [upd_same] at ho; cases ho
-          · rw [upd_other _ _ _ _ htt] at ho ⊢; exact h.queue t' ho
+          · rw [upd_other _ _ _ _ htt] at ho; exact h.par t' ho hx
+        · rw [hσ]
+          intro t' ho hx
+          simp only [Spec.step, St.emit] at ho ⊢
+          by_cases htt : t' = t
+          · subst htt; rw [upd_same] at ho; cases ho
+          · rw [upd_other _ _ _ _ htt] at ho ⊢; exact h.queue t' ho hx
         · intro t' ht'
           have ht'' : s.nT < t' := ht'
           have htt : t' ≠ t := by omega
@@ -415,7 +457,7 @@ theorem wCommit_pres {s : St} {c : W} (h : Inv s) (hc : Good s.nT c)
           exact h.fresh t' ht''
         · exact h.lockF
       | false =>
-        rw [wCommit_ok h0 hl hf, hidu, hidt, h.queue t hopn]
+        rw [wCommit_ok h0 hl hf, hidu, hidt, h.queue t hopn hex]
         obtain ⟨htr, hopn', hq', hnT', hlt', hhd', hiu'⟩ := publishAll_trace
           ({ s with opn := upd s.opn t false }.emit (.commit t .ok)) ((specOf s.trace).pend t)
         refine ⟨?_, ⟨by rw [hnT']; exact Nat.le_refl _, hlt', hhd', fun hi => by rw [hiu']; exact hi⟩⟩
@@ -424,7 +466,7 @@ theorem wCommit_pres {s : St} {c : W} (h : Inv s) (hc : Good s.nT c)
         have hstep : (specOf s.trace).step (.commit t .ok) =
             { specOf s.trace with dur := (specOf s.trace).dur ++ (specOf s.trace).pend t,
                                   pend := upd (specOf s.trace).pend t [] } := by
-          simp [Spec.step, h.par t]
+          simp [Spec.step, h.par t hopn hex]
         have hpl := spec_publish_list ((specOf s.trace).step (.commit t .ok)) ((specOf s.trace).pend t)
           (by rw [hstep]; exact h.bad) (by rw [hstep]; simp [h.pub])
         simp only [] at hpl
@@ -436,13 +478,18 @@ theorem wCommit_pres {s : St} {c : W} (h : Inv s) (hc : Good s.nT c)
         constructor
         · rw [hσ]; exact hpl.1
         · rw [hσ, hpl.2.1, hpl.2.2.1]
-        · rw [hσ, hpl.2.2.2.1, hstep]; exact h.par
-        · rw [hσ, hpl.2.2.2.2, hstep, hopn', hq']
-          intro t' ho
+        · rw [hσ, hpl.2.2.2.1, hstep, hopn']
+          intro t' ho hx
           simp only [St.emit] at ho ⊢
           by_cases htt : t' = t
           · subst htt; rw [upd_same] at ho; cases ho
-          · rw [upd_other _ _ _ _ htt] at ho ⊢; exact h.queue t' ho
+          · rw [upd_other _ _ _ _ htt] at ho; exact h.par t' ho hx
+        · rw [hσ, hpl.2.2.2.2, hstep, hopn', hq']
+          intro t' ho hx
+          simp only [St.emit] at ho ⊢
+          by_cases htt : t' = t
+          · subst htt; rw [upd_same] at ho; cases ho
+          · rw [upd_other _ _ _ _ htt] at ho ⊢; exact h.queue t' ho hx
         · rw [hnT', hopn', hq']
           intro t' ht'
           have ht'' : s.nT < t' := ht'
@@ -462,19 +509,19 @@ theorem wRollback_live {s : St} {c : W} (h0 : c.u.id ≠ 0) (hl : c.u.live s.opn
   cases hf : s.faults.rollback <;> simp [wRollback, h0, hl, hf, St.emit]
 
 /-- `Rollback` on any wrapper of the discipline. -/
-theorem wRollback_pres {s : St} {c : W} (h : Inv s) (hc : Good s.nT c) :
-    Inv (wRollback s c).2 ∧ Ext s (wRollback s c).2 := by
+theorem wRollback_pres {ex : Nat → Bool} {s : St} {c : W} (h : InvE ex s) (hc : Good s.nT c) :
+    InvE ex (wRollback s c).2 ∧ Ext s (wRollback s c).2 := by
   rcases hc with ⟨hu, _, hid⟩ | ⟨t, hu, ht1, htn, _, _, hid⟩
   · rw [wRollback_done (Or.inl (by rw [hu]; rfl))]
-    refine ⟨Inv.emit_inert ?_ _ rfl, ⟨Nat.le_refl _, rfl, rfl, id⟩⟩
+    refine ⟨InvE.emit_inert ?_ _ rfl, ⟨Nat.le_refl _, rfl, rfl, id⟩⟩
     constructor
     · exact h.bad
     · exact h.pub
     · exact h.par
-    · intro t' ho
+    · intro t' ho hx
       show updQ s.queue c.id [] (.tx t') = _
       rw [updQ_other _ _ _ _ (fun he => hid t' he.symm)]
-      exact h.queue t' ho
+      exact h.queue t' ho hx
     · intro t' ht'
       refine ⟨(h.fresh t' ht').1, ?_⟩
       show updQ s.queue c.id [] (.tx t') = _
@@ -492,16 +539,16 @@ theorem wRollback_pres {s : St} {c : W} (h : Inv s) (hc : Good s.nT c) :
     | false =>
       have hopn : s.opn t = false := by rw [hu, live_tx] at hl; exact hl
       rw [wRollback_done (Or.inr hl)]
-      refine ⟨Inv.emit_inert ?_ _ rfl, ⟨Nat.le_refl _, rfl, rfl, id⟩⟩
+      refine ⟨InvE.emit_inert ?_ _ rfl, ⟨Nat.le_refl _, rfl, rfl, id⟩⟩
       constructor
       · exact h.bad
       · exact h.pub
       · exact h.par
-      · intro t' ho
+      · intro t' ho hx
         have htt : t' ≠ t := by intro he; subst he; rw [hopn] at ho; cases ho
         show updQ s.queue c.id [] (.tx t') = _
         rw [updQ_other _ _ _ _ (hne t' htt)]
-        exact h.queue t' ho
+        exact h.queue t' ho hx
       · intro t' ht'
         have ht'' : s.nT < t' := ht'
         have htt : t' ≠ t := by omega
@@ -520,15 +567,20 @@ theorem wRollback_pres {s : St} {c : W} (h : Inv s) (hc : Good s.nT c) :
       constructor
       · rw [hσ]; exact h.bad
       · rw [hσ]; exact h.pub
-      · rw [hσ]; exact h.par
       · rw [hσ]
-        intro t' ho
+        intro t' ho hx
+        simp only [St.emit] at ho ⊢
+        by_cases htt : t' = t
+        · subst htt; rw [upd_same] at ho; cases ho
+        · rw [upd_other _ _ _ _ htt] at ho; exact h.par t' ho hx
+      · rw [hσ]
+        intro t' ho hx
         simp only [St.emit] at ho ⊢
         by_cases htt : t' = t
         · subst htt; rw [upd_same] at ho; cases ho
         · rw [upd_other _ _ _ _ htt] at ho ⊢
           rw [updQ_other _ _ _ _ (hne t' htt)]
-          exact h.queue t' ho
+          exact h.queue t' ho hx
       · intro t' ht'
         have ht'' : s.nT < t' := ht'
         have htt : t' ≠ t := by omega
@@ -536,6 +588,5 @@ theorem wRollback_pres {s : St} {c : W} (h : Inv s) (hc : Good s.nT c) :
         rw [upd_other _ _ _ _ htt, updQ_other _ _ _ _ (hne t' htt)]
         exact h.fresh t' ht''
       · exact h.lockF
-
 
 end Ledger.Wrap
